@@ -2,6 +2,8 @@
 // with main() renamed so that it is never entered. The --no-warn mapping at the end of main() is exercised with the real
 // binary (tools/props/c19.py, end-to-end part); here the state machine of set_exit_status() is tabulated.
 #include "sysdefs.h"
+#include <string.h>
+#include <unistd.h>
 #include "c19.h"
 
 #define main c19_xz_main
@@ -42,4 +44,112 @@ c19_probe_exit(FILE *f)
 		}
 	fprintf(f, "]\n\n");
 	exit_status = E_SUCCESS;
+}
+
+
+// ---- the real main(): which names reach coder_run(), and which of them as standard input -----------------------------------
+
+int
+c19_run_main(int argc, char **argv)
+{
+	c19_args_reset();
+	c19_exit_reset();
+	c19_plan_reset();
+	c19_exit_code = -1;
+	c19_exit_armed = true;
+	c19_fatal_armed = true;
+	if (setjmp(c19_fatal_jmp) != 0) {
+		c19_exit_code = 1000;           // message_fatal
+	} else if (setjmp(c19_exit_jmp) == 0) {
+		(void)c19_xz_main(argc, argv);
+	}
+	c19_exit_armed = false;
+	c19_fatal_armed = false;
+	const int code = c19_exit_code;
+	c19_args_reset();
+	opt_format = FORMAT_XZ;
+	return code;
+}
+
+static void
+put_bytes(FILE *f, const char *s, size_t n)
+{
+	fputc('[', f);
+	for (size_t i = 0; i < n; ++i)
+		fprintf(f, "%s%u", i ? ", " : "", (unsigned)(unsigned char)s[i]);
+	fputc(']', f);
+}
+
+void
+c19_probe_main(FILE *f, const char *scratch_dir)
+{
+	if (chdir(scratch_dir))
+		abort();
+	// command-line operands (given after "--")
+	static const char *const cmds[][3] = { { NULL }, { "-", NULL }, { "a", NULL }, { "a", "-", NULL }, { "-", "-x", NULL } };
+	// raw contents of the list; '|' stands for the delimiter (newline for --files, NUL for --files0)
+	static const char *const lists[] = { "-|", "a|-|b|", "-|-|", "--help|-c|--|", "", "||a||-||", "a|-", "-", "a~b|c|" };
+	fprintf(f, "/-- The real main() of xz (args_parse, the two loops over names, read_name) with coder_run() replaced by a recorder.\n"
+		"    row = (operands after `--`, list mode: 0 none, 1 --files=FILE, 2 --files0=FILE, 3 --files (list on stdin), 4 --files0 (stdin),\n"
+		"    raw bytes of the list, what reached coder_run() in order). In the last component [1, 83] = standard input,\n"
+		"    [1, 82] = refused (\"Cannot read data from standard input when reading filenames from standard input\"),\n"
+		"    [1, 69] = error while reading the list (unexpected end of input / NUL in --files). -/\n");
+	fprintf(f, "def mainRows : List (List (List UInt8) × Nat × List UInt8 × List (List UInt8)) := [");
+	bool first = true;
+	for (int lm = 0; lm <= 4; ++lm)
+	for (size_t ci = 0; ci < 5; ++ci)
+	for (size_t li = 0; li < 9; ++li) {
+		if (lm == 0 && li != 0)
+			continue;
+		char raw[64];
+		size_t rawn = 0;
+		if (lm != 0) {
+			rawn = strlen(lists[li]);
+			memcpy(raw, lists[li], rawn);
+			for (size_t i = 0; i < rawn; ++i)
+				if (raw[i] == '|')
+					raw[i] = (lm == 1 || lm == 3) ? '\n' : '\0';
+				else if (raw[i] == '~')
+					raw[i] = '\0';
+			FILE *lf = fopen("list", "wb");
+			if (lf == NULL || fwrite(raw, 1, rawn, lf) != rawn)
+				abort();
+			fclose(lf);
+			if ((lm == 3 || lm == 4) && freopen("list", "rb", stdin) == NULL)
+				abort();
+		}
+		char a0[] = "xz", a1[32], dd[] = "--";
+		char names[3][8];
+		char *argv[8];
+		int argc = 0;
+		argv[argc++] = a0;
+		if (lm != 0) {
+			snprintf(a1, sizeof(a1), "%s", lm == 1 ? "--files=list" : lm == 2 ? "--files0=list" : lm == 3 ? "--files" : "--files0");
+			argv[argc++] = a1;
+		}
+		argv[argc++] = dd;
+		for (int k = 0; cmds[ci][k] != NULL; ++k) {
+			snprintf(names[k], sizeof(names[k]), "%s", cmds[ci][k]);
+			argv[argc++] = names[k];
+		}
+		argv[argc] = NULL;
+		(void)c19_run_main(argc, argv);
+		fprintf(f, "%s\n  ([", first ? "" : ",");
+		first = false;
+		for (int k = 0; cmds[ci][k] != NULL; ++k) {
+			fprintf(f, "%s", k ? ", " : "");
+			put_bytes(f, cmds[ci][k], strlen(cmds[ci][k]));
+		}
+		fprintf(f, "], %d, ", lm);
+		put_bytes(f, raw, rawn);
+		fprintf(f, ", [");
+		for (int k = 0; k < c19_plan_n; ++k) {
+			fprintf(f, "%s", k ? ", " : "");
+			put_bytes(f, c19_plan[k], strlen(c19_plan[k]));
+		}
+		fprintf(f, "])");
+	}
+	fprintf(f, "]\n\n");
+	c19_plan_reset();
+	(void)unlink("list");
 }
